@@ -424,6 +424,7 @@ type methodInfo struct {
 	NThrows  int
 	Fn       *idlgen.Function
 	Mode     string // streaming mode ("" = an ordinary function)
+	NoDrive  bool   // arguments / result hold a member named `_…` somewhere: compiled and scanned, not called
 }
 
 type svcInfo struct {
@@ -456,6 +457,7 @@ func serviceTable(p *idlgen.Program, s *idlgen.Schema, streaming map[*idlgen.Fun
 				if !fn.Oneway {
 					m.ResSidx = sidx[fmt.Sprintf("%d/%s/%s_result", fi, sv.Name, fn.Name)]
 				}
+				m.NoDrive = underscoreField(s, m.ArgsSidx, map[int]bool{}) || (m.ResSidx >= 0 && underscoreField(s, m.ResSidx, map[int]bool{}))
 				if mode, ok := streaming[fn]; ok {
 					m.Mode = mode
 					si.Removed = append(si.Removed, m)
@@ -549,13 +551,33 @@ func regressionProgram() (*idlgen.Program, map[*idlgen.Function]string) {
 	return &idlgen.Program{Files: []*idlgen.File{a, b}}, map[*idlgen.Function]string{u: "unary", c: "client", mu: "bidirectional"}
 }
 
-func (m *methodInfo) drivable() bool {
-	for _, a := range m.Fn.Args {
-		if strings.HasPrefix(a.Name, "_") {
-			return false
+func (m *methodInfo) drivable() bool { return !m.NoDrive }
+
+// underscoreField: some struct reachable from struct sidx has a member whose IDL name starts with `_` (an unexported Go
+// field, which the reflection driver cannot set)
+func underscoreField(s *idlgen.Schema, sidx int, seen map[int]bool) bool {
+	if seen[sidx] {
+		return false
+	}
+	seen[sidx] = true
+	var walk func(t *idlgen.RType) bool
+	walk = func(t *idlgen.RType) bool {
+		switch t.Kind {
+		case idlgen.RStruct:
+			return underscoreField(s, t.Sidx, seen)
+		case idlgen.RList, idlgen.RSet:
+			return walk(t.Elem)
+		case idlgen.RMap:
+			return walk(t.Key) || walk(t.Elem)
+		}
+		return false
+	}
+	for _, f := range s.Structs[sidx].Fields {
+		if strings.HasPrefix(f.Name, "_") || walk(f.Type) {
+			return true
 		}
 	}
-	return true
+	return false
 }
 
 func simpleStruct(name string) *idlgen.Struct {
